@@ -817,12 +817,21 @@ class Run:
         return ite(g, new, old)
 
     def s_ForInStatNode(self, s, frame, g):
-        if s.else_clause is not None:
-            raise Unsupported("for-else")
         seq = s.iterator.sequence
         lp = Loop()
         frame.loops.append(lp)
         try:
+            self._for_body(s, seq, frame, g, lp)
+        finally:
+            frame.loops.pop()
+        if s.else_clause is not None:
+            # the else suite runs when the loop was not left by `break`
+            ge_ = and_(g, not_(lp.brk), not_(frame.ret), not_(self.dead))
+            if ge_ is not False:
+                self.block(s.else_clause, frame, ge_)
+
+    def _for_body(self, s, seq, frame, g, lp):
+        if True:
             if type(seq).__name__ == "SimpleCallNode" and dotted(seq.function) == "range":
                 self.for_range(s, seq, frame, g, lp)
             else:
@@ -846,8 +855,6 @@ class Run:
                     lp.cont = False
                     self.assign(s.target, v, frame, gi)
                     self.block(s.body, frame, gi)
-        finally:
-            frame.loops.pop()
 
     def for_range(self, s, seq, frame, g, lp):
         args = [self.ev(a, frame, g) for a in seq.args]
